@@ -480,6 +480,14 @@ func (fr *Frame) call(site ssa.Instruction, c *ssa.CallCommon, st *State, pos st
 				// unknown function value (callback parameter)
 				f := scalarOf(fv, c.Value.Type())
 				vc.oblige(st, "nil", fr.name("nil@callfn@"+shortPos(pos)), pos, "call of nil function value", mkNeq(f, tNull), nil)
+				// a function stored in a struct field may carry an (assumed) abstract contract: flag funcfield
+				if key, name, recv, recvT, pkg := fr.funcFieldOf(c.Value); key != "" {
+					if ffc := vc.eng.contracts.Funcs[key]; ffc != nil && ffc.Flags["funcfield"] != "" {
+						ffc.Used = true
+						v := fr.ifaceContractCall(c.Signature(), recvT, name, pkg, ffc, append([]Val{recv}, args...), st, pos)
+						return v, st, true
+					}
+				}
 				vc.note("callback parameters are treated as effect-free (result havoc) in " + fr.fn.String())
 				return vc.havocResults(st, c.Signature()), st, true
 			}
@@ -861,4 +869,37 @@ func (vc *VC) nameRef(st *State, t *Term) *Term {
 	v := vc.fresh("ref", t.Sort)
 	vc.assumeGlobal(mkEq(v, t))
 	return v
+}
+
+// funcFieldOf: if v is the value of a func-typed field x.f of a named struct, returns the contract key
+// "(pkg.T).f", the field name, the value of x (struct or pointer), its type and T's package.
+func (fr *Frame) funcFieldOf(v ssa.Value) (key, name string, recv Val, recvT types.Type, pkg *types.Package) {
+	var x ssa.Value
+	var idx int
+	switch u := v.(type) {
+	case *ssa.Field:
+		x, idx = u.X, u.Field
+	case *ssa.UnOp:
+		fa, ok := u.X.(*ssa.FieldAddr)
+		if !ok {
+			return
+		}
+		x, idx = fa.X, fa.Field
+	default:
+		return
+	}
+	t := x.Type()
+	if p, ok := t.Underlying().(*types.Pointer); ok {
+		t = p.Elem()
+	}
+	n, ok := t.(*types.Named)
+	if !ok || n.Obj().Pkg() == nil {
+		return
+	}
+	st, ok := n.Underlying().(*types.Struct)
+	if !ok || idx >= st.NumFields() {
+		return
+	}
+	name = st.Field(idx).Name()
+	return "(" + n.Obj().Pkg().Path() + "." + n.Obj().Name() + ")." + name, name, fr.get(x), x.Type(), n.Obj().Pkg()
 }
